@@ -792,6 +792,9 @@ def task(
             # Include export option values.
             task_options_base.update(export_options)
             export_option_keys = set(export_options.keys())
+            if "cache" in export_option_keys:
+                # `cache` is stored as `cache_scope` (see Task._validate).
+                export_option_keys.add("cache_scope")
         else:
             export_option_keys = None
 
